@@ -3,7 +3,7 @@
 //! `RSSchedParallelNeighborhood::neighbors_of` (improving or not); every candidate of every visited
 //! schedule is checked.
 use crate::arena::Arena;
-use crate::canon::{caches_key, schedule_key};
+use crate::canon::{caches_key, ranked_key, schedule_key};
 use crate::evidence::*;
 use crate::sched_mc::{load_arena, ARENAS};
 use crate::sched_oracles::{c09, c10, C09Stats};
@@ -55,7 +55,7 @@ fn explore(a: &Arena, arena_id: usize, depth: usize, limited: bool, st: &mut Sta
     let nb = neighbourhood(a, limited);
     let start = a.inits.iter().find(|(n, _)| *n == "min_cost_flow+improve_depots").unwrap().1.clone();
     let mut seen: HashSet<String> = HashSet::new();
-    seen.insert(schedule_key(&start));
+    seen.insert(ranked_key(&start));
     let mut frontier: Vec<(ScheduleWithInfo, Vec<String>)> = vec![(ScheduleWithInfo::new(start, SwapInfo::NoSwap, "start".into()), vec![])];
     st.states += 1;
     st.per_depth.push(1);
@@ -114,7 +114,7 @@ fn explore(a: &Arena, arena_id: usize, depth: usize, limited: bool, st: &mut Sta
                                         fnd.push(Found { arena: arena_id, walk: w, clause: cl, detail: de });
                                     }
                                 }
-                                keyed.push((schedule_key(c.get_schedule()), c));
+                                keyed.push((ranked_key(c.get_schedule()), c));
                             }
                             out.push((keyed, kinds, fnd));
                         }
@@ -210,6 +210,8 @@ pub fn check(tier: &str) -> i32 {
     for &i in &arena_ids {
         let a = load_arena(i);
         for &limited in &variants {
+            // smaller arenas go one step deeper in the thorough tier
+            let depth = if tier == "thorough" && std::env::var("RSV_DEPTH").is_err() && matches!(i, 1 | 2 | 3) { depth + 1 } else { depth };
             let mut st = Stats::default();
             let mut f = vec![];
             explore(&a, i, depth, limited, &mut st, &mut f);
@@ -221,7 +223,7 @@ pub fn check(tier: &str) -> i32 {
                     machinery_error("C11", &format!("two runs disagree on arena {}: {:?} vs {:?}", a.name, (st.states, st.candidates), (st2.states, st2.candidates)));
                 }
             }
-            per_arena.push(json!({"arena": a.name, "code": a.code, "neighbourhood": if limited { "solver parameters (segments <= 3 h, overhead threshold 10 min)" } else { "unlimited segments, no threshold" }, "states_expanded": st.states, "candidates": st.candidates, "distinct_candidate_schedules": st.distinct_candidate_schedules, "states_per_depth": st.per_depth, "candidates_per_kind": st.per_kind}));
+            per_arena.push(json!({"arena": a.name, "walk_length": depth, "code": a.code, "neighbourhood": if limited { "solver parameters (segments <= 3 h, overhead threshold 10 min)" } else { "unlimited segments, no threshold" }, "states_expanded": st.states, "candidates": st.candidates, "distinct_candidate_schedules": st.distinct_candidate_schedules, "states_per_depth": st.per_depth, "candidates_per_kind": st.per_kind}));
             total.states += st.states;
             total.candidates += st.candidates;
             total.distinct_candidate_schedules += st.distinct_candidate_schedules;
